@@ -164,7 +164,10 @@ func c03R1(c *Ctx) {
 					fs.add("same-counter", "the counter that is marked is not the value that was checked", markCall, p)
 				}
 				if call, _ := fromCall(cv); call == nil || calleeID(call) != readCounterID {
-					fs.add("same-counter", "the checked counter is not the value parsed from the packet by readCounter", checkCall, p)
+					// parsed in place: any value computed from bytes of the packet parameter
+					if !derivesFromParamBytes(fn, cv, 2, 0) {
+						fs.add("same-counter", "the checked counter is not a value parsed from the packet (readCounter, or bytes of the packet parameter)", checkCall, p)
+					}
 				}
 			}
 		}
@@ -240,6 +243,22 @@ func c03R1(c *Ctx) {
 					act = "closeLocked"
 				case ctrlID:
 					act = "handleControlLocked"
+				default:
+					// a helper of the package that hands the plaintext to the receive queue
+					if g := staticCallee(&x.Call); g != nil && g.Pkg == h.Pkg && len(g.Blocks) > 0 {
+						eachInstr(g, func(gi ssa.Instruction) {
+							switch y := gi.(type) {
+							case *ssa.Send:
+								act = "delivery to the receive queue (in " + g.Name() + ")"
+							case *ssa.Select:
+								for _, st := range y.States {
+									if st.Dir == types.SendOnly {
+										act = "delivery to the receive queue (in " + g.Name() + ")"
+									}
+								}
+							}
+						})
+					}
 				}
 			}
 			if act == "" {
@@ -389,7 +408,8 @@ func c03R2R5(c *Ctx) {
 			fresh = true
 			root, _ := accessPath(nc.Call.Args[0])
 			kW := sessionKeyIn(P, wr)
-			c.Check(kW != nil && (lookThrough(root) == lookThrough(kW) || root == kW), "C03.R2", FuncName(wr)+"#key", P.InstrPos(seal), "AEAD keyed with the key parameter", "the sealing AEAD is not keyed with sealPacketLocked's key parameter")
+			fWK := P.Field("transport", "SessionState", "writeKey")
+			c.Check((kW != nil && (lookThrough(root) == lookThrough(kW) || root == kW)) || (fWK != nil && endsInField(nc.Call.Args[0], fWK, true)), "C03.R2", FuncName(wr)+"#key", P.InstrPos(seal), "AEAD keyed with the key parameter", "the sealing AEAD is not keyed with sealPacketLocked's key parameter")
 		}
 		c.Check(fresh, "C03.R2", FuncName(wr)+"#fresh-aead", P.InstrPos(seal), "a fresh SANSE instance per packet", "the AEAD instance that seals a packet is not created for that packet (SANSE is a stateful session mode; sender and receiver would have to see identical datagram histories forever)")
 	}
@@ -1066,4 +1086,63 @@ func c03Peel(c *Ctx, fn *ssa.Function, name string, maxPT int64, writeMsgID stri
 		c.Check(bounded, "C03.R4", cons+":bound", site, "last chunk bounded by what is left", "the end of a chunk is not bounded by the length of what is left")
 	}
 	return found
+}
+
+// derivesFromParamBytes: v is computed (shifts, ors, conversions, binary accessors, phis) from
+// bytes of fn's parameter number k or of a re-slice of it.
+func derivesFromParamBytes(fn *ssa.Function, v ssa.Value, k, depth int) bool {
+	if v == nil || depth > 12 {
+		return false
+	}
+	switch x := strip(v).(type) {
+	case *ssa.BinOp:
+		return derivesFromParamBytes(fn, x.X, k, depth+1) || derivesFromParamBytes(fn, x.Y, k, depth+1)
+	case *ssa.Convert:
+		return derivesFromParamBytes(fn, x.X, k, depth+1)
+	case *ssa.Phi:
+		for _, e := range x.Edges {
+			if derivesFromParamBytes(fn, e, k, depth+1) {
+				return true
+			}
+		}
+	case *ssa.UnOp:
+		if x.Op == token.MUL {
+			if ia, ok := x.X.(*ssa.IndexAddr); ok {
+				root, _ := accessPath(ia.X)
+				return paramIndex(fn, root) == k || sliceRootParam(fn, ia.X, k, 0)
+			}
+		}
+	case *ssa.Call:
+		for _, a := range callArgs(&x.Call) {
+			if isByteSlice(a.Type()) {
+				root, _ := accessPath(a)
+				if paramIndex(fn, root) == k || sliceRootParam(fn, a, k, 0) {
+					return true
+				}
+			}
+		}
+	}
+	return false
+}
+
+// sliceRootParam: v is fn's parameter k, a slice of it, or a phi / local of such.
+func sliceRootParam(fn *ssa.Function, v ssa.Value, k, depth int) bool {
+	if v == nil || depth > 8 {
+		return false
+	}
+	v = strip(v)
+	if paramIndex(fn, v) == k {
+		return true
+	}
+	switch x := v.(type) {
+	case *ssa.Slice:
+		return sliceRootParam(fn, x.X, k, depth+1)
+	case *ssa.Phi:
+		for _, e := range x.Edges {
+			if sliceRootParam(fn, e, k, depth+1) {
+				return true
+			}
+		}
+	}
+	return false
 }
